@@ -155,6 +155,12 @@ def _strip_broadcast(e):
     return e
 
 
+_UFUNC_BINOPS = {}
+for _m in ("np", "numpy"):
+    _UFUNC_BINOPS.update({_m + ".add": ast.Add, _m + ".subtract": ast.Sub, _m + ".multiply": ast.Mult, _m + ".divide": ast.Div,
+                          _m + ".true_divide": ast.Div, _m + ".power": ast.Pow})
+
+
 class Normaliser(object):
     def __init__(self, env=None, opaque_calls=True, rename=None, const_names=None):
         self.env = env or {}
@@ -195,6 +201,11 @@ class Normaliser(object):
                 return Poly.atom("(%s)**(%s)" % (self.poly(e.left).canon(), ex.canon()))
         if isinstance(e, ast.Call) and ast.unparse(e.func) in _IDENTITY_CALLS and e.args:
             return self.poly(e.args[0])  # coercions do not change the value
+        if isinstance(e, ast.Call) and ast.unparse(e.func) in _UFUNC_BINOPS and len(e.args) == 2 and not e.keywords:
+            # the function spelling of an arithmetic operator
+            return self.poly(ast.copy_location(ast.BinOp(left=e.args[0], op=_UFUNC_BINOPS[ast.unparse(e.func)](), right=e.args[1]), e))
+        if isinstance(e, ast.Call) and ast.unparse(e.func) in ("np.negative", "numpy.negative") and len(e.args) == 1 and not e.keywords:
+            return -self.poly(e.args[0])
         if isinstance(e, ast.Call) and ast.unparse(e.func) in ("np.outer", "numpy.outer") and len(e.args) == 2 and not e.keywords:
             return self.poly(e.args[0]) * self.poly(e.args[1])      # outer product of two vectors = their broadcast product
         if isinstance(e, ast.Call) and ast.unparse(e.func) in ("np.flip", "np.flipud", "numpy.flip", "numpy.flipud") and len(e.args) == 1 and \
